@@ -189,10 +189,11 @@ def observe(prop, binary, bdir, job, payload=None):
             rj = ref_job_of(job)
             rj["params"].update({"starve_task": 0, "starve_from": 0, "starve_len": 100000000, "range_yield_pct": 100})
             rr = run_one(binary, rj, timeout=900)
-            want = set((((rr or {}).get("reports") or {}).get("summaries") or {}).get("headers") or [])
-            have = set((((r or {}).get("reports") or {}).get("summaries") or {}).get("headers") or [])
-            if not want <= have:
+            ref, have = (rr or {}).get("reports") or {}, (r or {}).get("reports") or {}
+            if not set((ref.get("summaries") or {}).get("headers") or []) <= set((have.get("summaries") or {}).get("headers") or []):
                 sigs.append("summaries-report-incomplete-at-return")
+            if (ref.get("summary") or {}).get("lines", 0) > (have.get("summary") or {}).get("lines", 0):
+                sigs.append("summary-times-report-incomplete-at-return")
         return sigs
     r0 = run_one(binary, ref_job_of(job), timeout=900)
     if r is None or r0 is None or sysa.classify_hard(r) or sysa.classify_hard(r0):
@@ -308,7 +309,7 @@ def check_c20(tier, seed):
     writer_site = find_site(bdir, "go", "BuildGraph")
     st = Stats()
     # (a) MapParallel alone
-    na = 3000 if tier == "quick" else 60000
+    na = 3000 if tier == "quick" else 40000
     jobs = mappar_jobs(seed, na)
     res = run_jobs(binary, jobs, timeout=120, progress=20000, fresh=False)
     for j, r in zip(jobs, res):
@@ -323,7 +324,7 @@ def check_c20(tier, seed):
                              "mappar-%d" % j["id"])
     mappar_runs = st.runs
     # (b) the whole analyser with report options
-    nprog, nseeds = (60, 6) if tier == "quick" else (600, 20)
+    nprog, nseeds = (60, 6) if tier == "quick" else (400, 12)
     rng = Rng(seed ^ 0xC20B)
     jobs = []
     # calibration: programs on which the analyser itself is too slow under simulation are dropped (and counted)
@@ -399,9 +400,39 @@ def check_c20(tier, seed):
             rj["params"]["starve_len"] = 100000000
             rj["params"]["range_yield_pct"] = 100
             rr = run_one(binary, rj, timeout=900)
-            ref_cache[key] = ((rr or {}).get("reports") or {}).get("summaries", {}).get("headers") or []
+            ref_cache[key] = (rr or {}).get("reports") or {}
         return ref_cache[key]
 
+    def incomplete_reports(j, r):
+        """Report kinds whose file, read at the instant the analysis returned, lacks content that the reference run
+        (every other task scheduled before the main one) has: summaries by section header, the others by line count."""
+        ref = reference_headers(j)
+        have = (r or {}).get("reports") or {}
+        out = []
+        want_h = set((ref.get("summaries") or {}).get("headers") or [])
+        if not want_h <= set((have.get("summaries") or {}).get("headers") or []):
+            out.append("summaries")
+        # summary-times-*.csv has one line per function handled by the intra-procedural pass: a deterministic count.
+        # (The flow and coverage reports are not compared by size: which path a flow report shows, and hence its length,
+        # legitimately depends on the visit order.)
+        if (ref.get("summary") or {}).get("lines", 0) > (have.get("summary") or {}).get("lines", 0):
+            out.append("summary-times")
+        return out
+
+    # the references are independent runs: compute them in parallel, once per (program, options, kind)
+    need = {}
+    for j in jobs:
+        if j["options"].get("report-summaries"):
+            key = (j["_prog"], json.dumps(j["options"], sort_keys=True), j["kind"])
+            if key not in need:
+                rj = {k: v for k, v in j.items() if not k.startswith("_")}
+                rj["params"] = dict(sysa.base_params(), starve_task=0, starve_from=0, starve_len=100000000,
+                                    range_yield_pct=100, max_steps=j["params"].get("max_steps", sysa.MAX_STEPS))
+                rj["_key"] = key
+                need[key] = rj
+    ref_jobs = list(need.values())
+    for rj, rr in zip(ref_jobs, run_jobs(binary, ref_jobs, timeout=900, progress=5000)):
+        ref_cache[rj["_key"]] = (rr or {}).get("reports") or {}
     complete_checked = 0
     for j, r in zip(jobs, res):
         hard = sysa.classify_hard(r)
@@ -413,19 +444,16 @@ def check_c20(tier, seed):
         sigs = signatures_of("C20", j, r, bdir)
         if j["options"].get("report-summaries") and not (r or {}).get("died") and not ((r or {}).get("sim") or {}).get("aborted") \
                 and not r.get("panic") and r.get("summaries", 0) > 0:
-            have = set(((r.get("reports") or {}).get("summaries") or {}).get("headers") or [])
-            want = set(reference_headers(j))
             complete_checked += 1
-            if not want <= have:
-                sigs.append("summaries-report-incomplete-at-return")
+            for kind in incomplete_reports(j, r):
+                sigs.append("%s-report-incomplete-at-return" % kind)
         for sig in sigs:
             def pred(rr, cand=None, s=sig, jj=j):
                 cj = dict(cand or jj)
                 cj.setdefault("_prog", jj["_prog"] + ("" if cand is None else "#" + str(hash(json.dumps(cand.get("files", {}), sort_keys=True)))))
                 got = signatures_of("C20", cj, rr, bdir)
-                if s == "summaries-report-incomplete-at-return":
-                    have = set((((rr or {}).get("reports") or {}).get("summaries") or {}).get("headers") or [])
-                    return not set(reference_headers(cj)) <= have
+                if s.endswith("-report-incomplete-at-return"):
+                    return s[:-len("-report-incomplete-at-return")] in incomplete_reports(cj, rr)
                 return s in got
             report_violation(rep, binary, "C20", j, sig, pred, "analyser-%d" % j["id"])
     cov = st.coverage(RULE_A, {"mapparallel_runs": mappar_runs, "analyser_runs": st.runs - mappar_runs,
@@ -619,6 +647,8 @@ def check_c06(tier, seed):
     st = Stats()
     nprog, nseeds = (30, 5) if tier == "quick" else (400, 12)
     progs = [sysa.gen_program(seed + 6, i) for i in range(nprog)]
+    for k in range(16 if tier == "quick" else 80):
+        progs.append({"kind": "src", "name": "pathfam-%d-%d" % (seed, k), "text": tgen.pathfam(Rng(seed * 17 + k))})
     observations = collections.Counter()
     cur = {"b": binary}  # the binary the current exploration uses (replays must use the same instrumentation)
 
@@ -660,7 +690,7 @@ def check_c06(tier, seed):
             return d is not None and c06_signature(jj["_variant"], d, r0, rr) == s
         report_violation(rep, cur["b"], "C06", j, sig, pred, "run-%d" % j["id"])
 
-    variants = VARIANTS_C06 if tier == "thorough" else VARIANTS_C06[:5]
+    variants = VARIANTS_C06 if tier == "thorough" else VARIANTS_C06[:6]
     jobs, res, dropped = explore(binary, bdir, tier, seed, progs, variants, nseeds, st, rep, "C06", on_result)
     # unsafe-max-depth at *critical* depths: for every program the reference verdict is computed for depths 2..11;
     # a depth at which a flow first appears is where an order-dependent depth bookkeeping would cut it in some orders.
